@@ -45,7 +45,9 @@ import (
 	"github.com/NethermindEth/juno/db/memory"
 	_ "github.com/NethermindEth/juno/encoder/registry"
 	"github.com/NethermindEth/juno/l1"
+	"github.com/NethermindEth/juno/l1/geth/contract"
 	"github.com/NethermindEth/juno/utils/log"
+	"github.com/ethereum/go-ethereum/core/types"
 )
 
 const (
@@ -191,6 +193,28 @@ func (s *scriptSub) Unsubscribe() {
 	}
 }
 
+// The delivery path BELOW the L1StateProvider interface is the real one: what the scripted L1 node emits are contract
+// events (contract.StarknetLogStateUpdate); a live subscription is the geth provider's real forwarder goroutine
+// (l1.forwardStateUpdates, exported to the harness by prebuild.sh's overlay file) between the scripted geth-side
+// subscription and the client's channel, and catch-up results are decoded by the provider's real decoder.
+//
+// gethSide is the geth-side subscription handed to the forwarder: its error channel is the scripted one; its
+// Unsubscribe (called by the forwarder goroutine when it ends) is not a scheduling point.
+type gethSide struct{ errCh chan error }
+
+func (g gethSide) Err() <-chan error { return g.errCh }
+func (g gethSide) Unsubscribe()      {}
+
+// fwdSub is what the client holds: the forwarder's subscription, with the scripted Unsubscribe scheduling point (see
+// scriptSub.Unsubscribe) in front of the real teardown.
+type fwdSub struct {
+	inner l1.Subscription
+	s     *scriptSub
+}
+
+func (f *fwdSub) Err() <-chan error { return f.inner.Err() }
+func (f *fwdSub) Unsubscribe()      { f.s.Unsubscribe(); f.inner.Unsubscribe() }
+
 // ---------------------------------------------------------------------------------------------------------------
 // world = generator view of the L1 chain + reference model + harness bookkeeping of the client's mode
 
@@ -232,6 +256,7 @@ type world struct {
 	stepCatchup bool
 	subscribed  bool
 	sink        chan<- *l1.StateUpdate
+	gethCh      chan *contract.StarknetLogStateUpdate // input of the live forwarder of the current subscription
 	sub         *scriptSub
 	t0          time.Time // creation time of the poll ticker
 	t0set       bool
@@ -294,6 +319,28 @@ func (w *world) su(id int, removed bool) *l1.StateUpdate {
 	return &l1.StateUpdate{
 		L2BlockNumber: r.l2, L2BlockHash: hashOf(id), StateRoot: rootOf(id), L1RefHeight: r.l1, Removed: removed,
 	}
+}
+
+// raw is the contract event of log id as the L1 node emits it.
+func (w *world) raw(id int, removed bool) *contract.StarknetLogStateUpdate {
+	r := w.view[id]
+	h, g := hashOf(id), rootOf(id)
+	return &contract.StarknetLogStateUpdate{
+		GlobalRoot: g.BigInt(new(big.Int)), BlockNumber: new(big.Int).SetUint64(r.l2), BlockHash: h.BigInt(new(big.Int)),
+		Raw: types.Log{BlockNumber: r.l1, Removed: removed},
+	}
+}
+
+// push delivers one subscription item: through the real forwarder while the subscription is healthy; straight into the
+// client's channel once the subscription has failed (the forwarder has ended; see scriptSub.Unsubscribe for what such
+// an item stands for).
+func (w *world) push(id int, removed bool) {
+	if w.gethCh != nil && w.sub != nil && !w.sub.failed {
+		w.gethCh <- w.raw(id, removed)
+		w.stats["items_through_real_forwarder"]++
+		return
+	}
+	w.sink <- w.su(id, removed)
 }
 
 // enabled lists the explorer's choices in the current quiescent state.
@@ -466,7 +513,7 @@ func (w *world) apply(e evt) {
 				r := &w.view[i]
 				if r.alive && r.l1 >= c.from && r.l1 <= c.to {
 					r.delivered = true
-					evs = append(evs, w.su(i, false))
+					evs = append(evs, l1.VerifStateUpdateFromGethContract(w.raw(i, false)))
 				}
 			}
 			w.stats["filter_calls"]++
@@ -474,13 +521,15 @@ func (w *world) apply(e evt) {
 		case 'w':
 			w.sub = &scriptSub{errCh: make(chan error, 1), p: w.p, quit: w.quit}
 			w.sink = c.sink
+			w.gethCh = make(chan *contract.StarknetLogStateUpdate)
+			fwd := &fwdSub{l1.VerifForwardStateUpdates(gethSide{w.sub.errCh}, w.gethCh, c.sink), w.sub}
 			w.subscribed = true
 			if !w.t0set {
 				w.t0set, w.t0 = true, w.now() // receiveL1StateUpdates creates the ticker right after this returns
 			} else {
 				w.excEnding = true
 			}
-			w.answer(reply{sub: w.sub})
+			w.answer(reply{sub: fwd})
 		}
 	case 'L':
 		w.probeNext = true
@@ -537,7 +586,7 @@ func (w *world) apply(e evt) {
 			w.stats["items_pushed_during_error_handling"]++
 		}
 		w.pushed = append(w.pushed, pushedItem{false, w.view[id].l1})
-		w.sink <- w.su(id, false)
+		w.push(id, false)
 	case 'R':
 		x := e.A
 		target, killed := -1, 0
@@ -570,7 +619,7 @@ func (w *world) apply(e evt) {
 			w.stats["removals_multi"]++
 		}
 		w.pushed = append(w.pushed, pushedItem{true, x})
-		w.sink <- w.su(target, true)
+		w.push(target, true)
 	case 'E':
 		w.subscribed = false
 		w.inExc, w.leftSelect = true, w.now()
